@@ -8,25 +8,25 @@ VERIF = os.path.dirname(os.path.dirname(os.path.abspath(__file__)))
 
 CONTROLS = {
     'C01': ['mutants/c01-strncmp.diff', 'mutants/c01-hmac-noerr.diff'],
-    'C02': ['mutants/c02-caseless.diff', 'mutants/c02-no-check-after-cb.diff'],
+    'C02': ['mutants/c02-caseless.diff', 'seeded/C02r8/patch.diff'],
     'C03': ['seeded/C03r4/patch.diff', 'mutants/c02-sigless-configalg.diff'],
     'C04': ['mutants/c04-exp-lt.diff', 'mutants/c04-getint-narrow.diff'],
     'C05': ['mutants/c05-pss-salt.diff', 'seeded/C05r3/patch.diff'],
     'C06': ['mutants/c06-infinite.diff', 'mutants/c06-json-noterm.diff'],
-    'C07': ['mutants/c07-kty-nonstring.diff', 'seeded/C07r4/patch.diff'],
-    'C08': ['seeded/C08r4/patch.diff', 'seeded/C08r6/patch.diff'],
+    'C07': ['mutants/c07-kty-nonstring.diff', 'seeded/C07r8/patch.diff'],
+    'C08': ['seeded/C08r4/patch.diff', 'seeded/C08r8/patch.diff'],
     'C09': ['mutants/c09-rsa-floor.diff', 'seeded/C09r6/patch.diff'],
     'C10': ['mutants/c10-buf-size.diff', 'mutants/c10-alg-noreplace.diff'],
-    'C11': ['mutants/c11-urlmap.diff', 'seeded/C11r6/patch.diff'],
-    'C12': ['mutants/c12-name-prefix.diff', 'seeded/C12r5/patch.diff'],
+    'C11': ['mutants/c11-urlmap.diff', 'seeded/C11r8/patch.diff'],
+    'C12': ['mutants/c12-name-prefix.diff', 'seeded/C12r8/patch.diff'],
     'C13': ['mutants/c18-static-sigbuf.diff', 'seeded/C13r3/patch.diff'],
     'C14': ['mutants/c14-copy-error-cond.diff', 'seeded/C14r4/patch.diff'],
     'C15': ['mutants/c15-getbool-notype.diff', 'mutants/c15-headerdel-payload.diff'],
     'C16': ['mutants/c16-index-int.diff', 'mutants/c16-item-free-nounlink.diff'],
     'C17': ['mutants/c17-kid-nocheck.diff', 'seeded/C17r3/patch.diff'],
-    'C18': ['mutants/c18-item-write-in-verify.diff', 'seeded/C18r3/patch.diff'],
+    'C18': ['mutants/c18-item-write-in-verify.diff', 'seeded/C18r8/patch.diff'],
     'C19': ['mutants/c19-snapshot-after-cb.diff', 'mutants/c19-cb-ret-negative-only.diff'],
-    'C20': ['mutants/c20-err-assign.diff', 'seeded/C20r6/patch.diff'],
+    'C20': ['mutants/c20-err-assign.diff', 'seeded/C20r8/patch.diff'],
 }
 
 
